@@ -16,7 +16,7 @@ def run(ctx):
         for r in range(12):
             jobs.append((exe, ["perm", r, t], be))
         jobs.append((exe, ["bytes", t], be))
-        jobs.append((exe, ["seq", 4 if ctx.thorough else 3], be))
+        jobs.append((exe, ["seq", 5 if ctx.thorough else 3], be))
     common.parallel(lambda j: common.run_harness(ctx, j[0], j[1], label=j[2]), jobs)
     ctx.assumptions += [
         "each implemented round is a map of algebraic degree <= 2 over GF(2) (true for any AND-depth-1 bit-sliced round), so agreement on all inputs of weight <= 2 "
@@ -27,6 +27,6 @@ def run(ctx):
     cov = dict(evaluations=ctx.stats.get("evaluations", 0), distinct_nontrivial=ctx.stats.get("nontrivial", 0),
                rule="per backend: (1 + 320 + 51040) states of Hamming weight <= 2 and their complements + dense states x 12 starting rounds against the table-S-box reference; "
                     "861 (offset,size) ranges x {add, overwrite, zero, extract, extract_and_add, extract_and_overwrite out-of-place and in-place} x affine basis of (state, data); "
-                    "every sequence of <= 3 (thorough: 4) operations from an 18-letter alphabet (permute, byte-range calls, ascon_copy both ways, release+acquire) on two live states against a byte-array model",
+                    "every sequence of <= 3 (thorough: 5) operations from an 18-letter alphabet (permute, byte-range calls, ascon_copy both ways, release+acquire) on two live states against a byte-array model",
                exhaustive=True)
     return LEVEL, cov
